@@ -203,16 +203,39 @@ def h_jumptimes(ctx, ndates):
 def replay_finer(sc):
     jt = np.array(sc["jt"], dtype=float)
     jv = np.array(sc["jv"], dtype=float)
+    cv = np.array(sc.get("cv") or [10.0 + 3.0 * v + k for k, v in enumerate(sc["jv"])], dtype=float)
     eps, T = sc["eps"], sc["T"]
+    c2 = None
     if sc["which"] == "levyprocess":
         f = LP.SimulationMaximumStep.create_build_finer_grid_fun(epsilon=eps, maturity=T)
         t2, v2 = f(None, jt.copy(), jv.copy())
     else:
         f = CH.create_build_finer_grid_fun(epsilon=eps, maturity=T)
-        t2, v2, _ = f(None, jt.copy(), jv.copy(), jv.copy())
+        t2, v2, c2 = f(None, jt.copy(), jv.copy(), cv.copy())
+    t2, v2 = np.asarray(t2, dtype=float), np.asarray(v2, dtype=float)
     steps = np.diff(np.concatenate(([0.0], t2)))
-    bad = steps.max() > eps * (1 + 1e-12)
-    return bool(bad), f"build_finer_grid(eps={eps}) on times {jt.tolist()}: steps {steps.tolist()}"
+    bad = []
+    if steps.max() > eps * (1 + 1e-12):
+        bad.append(f"steps {steps.tolist()} exceed eps")
+    if steps.min() <= 0:
+        bad.append(f"times {t2.tolist()} not strictly increasing from 0")
+    if len(v2) != len(t2) or (c2 is not None and len(c2) != len(t2)):
+        bad.append("arrays not aligned")
+    else:
+        # piecewise-constant reference: value of the last original point at or before each time (0 before the first jump)
+        for i, t in enumerate(t2):
+            k = int(np.searchsorted(jt, t + 1e-12, side="right")) - 1
+            want_v = jv[k] if k >= 0 else 0.0
+            if abs(v2[i] - want_v) > 1e-12:
+                bad.append(f"fine value at t={t!r} is {v2[i]!r}, the path there is {want_v!r}")
+            if c2 is not None:
+                want_c = cv[k] if k >= 0 else 0.0
+                if abs(float(c2[i]) - want_c) > 1e-12:
+                    bad.append(f"coarse value at t={t!r} is {float(c2[i])!r}, the path there is {want_c!r}")
+        missing = [x for x in jt if np.min(np.abs(t2 - x)) > 1e-12]
+        if missing:
+            bad.append(f"original times {missing} dropped")
+    return bool(bad), f"build_finer_grid(eps={eps}, T={T}) on times {jt.tolist()} values {jv.tolist()}" + (f" coarse {cv.tolist()}" if c2 is not None else "") + ": " + "; ".join(bad[:3])
 
 
 def h_finer(ctx, which, njumps):
@@ -240,7 +263,7 @@ def h_finer(ctx, which, njumps):
         t2, v2, c2 = f(None, jt, jv, cv)
     n = len(t2)
     info = {"which": which, "jumps": njumps, "points": n}
-    rp = (replay_finer, lambda m: {"which": which, "jt": _vals(m, jt0), "jv": _vals(m, jv0), "eps": m.f(eps), "T": m.f(T)})
+    rp = (replay_finer, lambda m: {"which": which, "jt": _vals(m, jt0), "jv": _vals(m, jv0), "cv": _vals(m, cv0) if which != "levyprocess" else None, "eps": m.f(eps), "T": m.f(T)})
     steps = [t2[0]] + [t2[i + 1] - t2[i] for i in range(n - 1)]
     ctx.prove("C15.maxstep.every_step_at_most_epsilon", AND(*[s <= eps for s in steps]), info=info, replay=rp)
     ctx.prove("C15.maxstep.times_strictly_increasing", AND(t2[0] > 0, *[t2[i] < t2[i + 1] for i in range(n - 1)]), info=info, replay=rp)
